@@ -73,3 +73,54 @@ package time
 //@   requires isBelow(c) || isAbove(c)
 //@   ensures ts == tsOf(c) && isAbv == isAbove(c)
 //@   modifies nothing
+//@
+//@ // ---- periods: half-open intervals [start, end) of instants; absent bounds are unbounded ----
+//@ pure func inst(t) = t.Seconds * 1000000000 + t.Nanos
+//@ pure func wfPeriod(p) = (p.StartTime == nil || validTS(p.StartTime)) && (p.EndTime == nil || validTS(p.EndTime))
+//@ pure func inPeriod(p, t) = (p.StartTime == nil || inst(p.StartTime) <= t) && (p.EndTime == nil || t < inst(p.EndTime))
+//@ pure func inClosure(p, t) = (p.StartTime == nil || inst(p.StartTime) <= t) && (p.EndTime == nil || t <= inst(p.EndTime))
+//@ pure func startsBeforeEnd(p, q) = p.StartTime == nil || q.EndTime == nil || inst(p.StartTime) < inst(q.EndTime)
+//@ pure func startsNotAfterEnd(p, q) = p.StartTime == nil || q.EndTime == nil || inst(p.StartTime) <= inst(q.EndTime)
+//@ pure func overlap(p, q) = startsBeforeEnd(p, p) && startsBeforeEnd(q, q) && startsBeforeEnd(p, q) && startsBeforeEnd(q, p)
+//@ pure func touchOrOverlap(p, q) = startsNotAfterEnd(p, q) && startsNotAfterEnd(q, p)
+//@
+//@ func cutPeriod(p) (lower, upper)
+//@   requires p != nil && wfPeriod(p)
+//@   ensures wfCut(lower) && wfCut(upper)
+//@   ensures p.StartTime == nil ==> isBelowAll(lower)
+//@   ensures p.StartTime != nil ==> isBelow(lower) && tsOf(lower) == p.StartTime
+//@   ensures p.EndTime == nil ==> isAboveAll(upper)
+//@   ensures p.EndTime != nil ==> isBelow(upper) && tsOf(upper) == p.EndTime
+//@   modifies nothing
+//@
+//@ func PeriodsIntersect(p1, p2) (r)
+//@   requires p1 == nil || wfPeriod(p1)
+//@   requires p2 == nil || wfPeriod(p2)
+//@   ensures [nil] (p1 == nil || p2 == nil) ==> !r
+//@   ensures [overlap] p1 != nil && p2 != nil ==> r == overlap(p1, p2)
+//@   modifies nothing
+//@   replay PeriodsIntersect(p1 != nil, p1.StartTime != nil, p1.StartTime.Seconds, p1.StartTime.Nanos, p1.EndTime != nil, p1.EndTime.Seconds, p1.EndTime.Nanos, p2 != nil, p2.StartTime != nil, p2.StartTime.Seconds, p2.StartTime.Nanos, p2.EndTime != nil, p2.EndTime.Seconds, p2.EndTime.Nanos)
+//@
+//@ func PeriodsConnected(p1, p2) (r)
+//@   requires p1 == nil || (wfPeriod(p1) && startsNotAfterEnd(p1, p1))
+//@   requires p2 == nil || (wfPeriod(p2) && startsNotAfterEnd(p2, p2))
+//@   ensures [nil] (p1 == nil || p2 == nil) ==> !r
+//@   ensures [touch] p1 != nil && p2 != nil ==> r == touchOrOverlap(p1, p2)
+//@   modifies nothing
+//@
+//@ // the characterisations used above are exactly "share an instant" / "closures share an instant"
+//@ lemma overlapSound(p *time.Period, q *time.Period, t mathint)
+//@   requires wfPeriod(p) && wfPeriod(q)
+//@   ensures inPeriod(p, t) && inPeriod(q, t) ==> overlap(p, q)
+//@ lemma overlapComplete(p *time.Period, q *time.Period)
+//@   requires wfPeriod(p) && wfPeriod(q) && overlap(p, q)
+//@   ensures exists t mathint :: inPeriod(p, t) && inPeriod(q, t)
+//@ lemma touchSound(p *time.Period, q *time.Period, t mathint)
+//@   requires wfPeriod(p) && wfPeriod(q)
+//@   ensures inClosure(p, t) && inClosure(q, t) ==> touchOrOverlap(p, q)
+//@ lemma touchComplete(p *time.Period, q *time.Period)
+//@   requires wfPeriod(p) && wfPeriod(q) && startsNotAfterEnd(p, p) && startsNotAfterEnd(q, q) && touchOrOverlap(p, q)
+//@   ensures exists t mathint :: inClosure(p, t) && inClosure(q, t)
+//@ lemma periodPredicatesSymmetric(p *time.Period, q *time.Period)
+//@   ensures overlap(p, q) == overlap(q, p)
+//@   ensures touchOrOverlap(p, q) == touchOrOverlap(q, p)
